@@ -16,6 +16,11 @@ claimed = {
    note="Trusted: writer offsets recorded by mark() identify the statement's extent; instances dynamically nested inside another try/exec are skipped by the spliced-output oracle; bodies do not assign outer variables (roll-back of those is not demanded by the statement).",
    tech="deterministic simulation: seeded program generation, fault injection at every dynamic call inside the try body, spliced-output and twin-program oracles, tape shrinking + replay",
    ref="DESIGN.md §6 C13"),
+ "C12": dict(engine="execsim", cat="fault_enumeration",
+   text="A failure site is a fault. Per generated world, every reached site placeholder (in the executed template, included files, imported blocks, extended parents, exec targets; under range/if/block/yield-content/include; outside try) is replaced, one at a time, by a failing action of each of ~68 self-detected failure classes (unknown identifier/field/method/block/template; index, slice bound, operand, call target, argument, range subject of wrong kind/count/range; yield argument without value; '_' without piped value; SafeWriter not last; built-in argument checks), and for the function-reports-an-error class every dynamic call of the site panics with an error. Judged per planted failure: Execute returns an error and does not panic; the message names the site's file and 1-based line (any position in the message may match, format-agnostic); the writer holds exactly the bytes the fault-free twin had written before the site (also at the fault instant: streaming); planting at a site that is never reached changes nothing. Sites and classes are capped per run in the quick tier (6 sites x 24 rotated classes) and widened in the thorough tier (12 x all).",
+   note="Trusted: the fault-free twin run (site = mark()) defines 'everything rendered before'; failing actions are single-line. 11 class-specific known findings (position-less errors from jet's own built-in functions and numeric conversion helpers) are listed in known_findings.json and reported as KNOWN-FINDING.",
+   tech="deterministic simulation: seeded program generation, failing action planted at every reached site x failure class, function faults at every dynamic call, twin-run prefix oracle, tape shrinking + replay",
+   ref="DESIGN.md §6 C12"),
 }
 
 not_applicable = {
@@ -31,7 +36,7 @@ not_applicable = {
  "C18": "single-threaded, fault-free API-vs-syntax equivalence: stateful input generation, not simulation (DESIGN.md §7)",
  "C20": "pure function of the AST (DESIGN.md §7)",
 }
-pending = {k: 'claimed in DESIGN.md §2; its check is still under construction, so nothing is asserted yet' for k in ['C02','C05','C11','C12','C15','C16','C19']}  # id -> reason, for claimed-in-design properties whose check is not built yet
+pending = {k: 'claimed in DESIGN.md §2; its check is still under construction, so nothing is asserted yet' for k in ['C02','C05','C11','C15','C16','C19']}  # id -> reason, for claimed-in-design properties whose check is not built yet
 
 m = {
  "version": 1,
